@@ -211,6 +211,20 @@ CHECKS = {
              '== (errors == []), the raising form raises exactly errors[0] (type and text) or returns True, and the report '
              'written to a file object and to a path consists exactly of the Error:/Warning: lines of the returned lists.',
         note='trusted: conforming-instance builder (tables), error-text matching by child name; 33 known findings (D12: structures listing one segment twice)'),
+    'C05': dict(
+        engine='E1 grid + E2 hist', design_ref='DESIGN.md section 7 C05',
+        technique='exhaustive enumeration of canonical / invalid / over-long leaf texts at every leaf position parsed under both '
+                  'levels, plus explicit-state breadth-first search in lock step on STRICT and TOLERANT twins of real objects; '
+                  'differential oracle between the levels and the validator',
+        text='For every segment of 2.5 and 2.7 and every third segment of the other versions (thorough: all): each leaf alone with its '
+             'typed literal, with the invalid literal of its datatype, with a value one character over the maximum length, and the '
+             'all-leaves shape (also inside a host message) are parsed under STRICT and TOLERANT (~230,000 texts): whatever STRICT '
+             'accepts TOLERANT accepts with the same encoding and validation report, the validator finds nothing but missing '
+             'required children on it, and STRICT refuses every invalid and over-long value. Five twin roots (Segment parsed and '
+             'empty, Field, Message, Group) are driven in lock step through 27 operations to depth 2 (thorough 3), including the '
+             'six kinds STRICT must refuse (cardinality overflow, foreign child, unnamed child, datatype override, invalid value, '
+             'over-long value).',
+        note='trusted: differential oracle only; 8 known findings (D13: STRICT groups encode in structure order)'),
     'C06': dict(
         engine=E1, design_ref='DESIGN.md section 7 C06',
         technique='bounded-exhaustive enumeration (all strings <= 5/6 over the delimiter/escape alphabet x every textual '
